@@ -196,9 +196,13 @@ def sameValue (a b : List Char) : Bool :=
 
 /-! ## maximal munch: the numeric literal at the start of a source text -/
 
+/-- the largest `k ≤ n`, `k > 0`, such that the first `k` characters of `src` are a `NumericLiteral` -/
+def longestFrom (src : List Char) : Nat → Option Nat
+  | 0 => none
+  | k + 1 => if isNumericLiteral (src.take (k + 1)) then some (k + 1) else longestFrom src k
+
 /-- length of the longest prefix of `src` that is a `NumericLiteral` -/
-def longestLitPrefix (src : List Char) : Option Nat :=
-  ((List.range (src.length + 1)).reverse).find? (fun k => isNumericLiteral (src.take k))
+def longestLitPrefix (src : List Char) : Option Nat := longestFrom src src.length
 
 def isIdentStart (c : Char) : Bool := c.isAlpha || c == '$' || c == '_'
 
